@@ -3,9 +3,10 @@
    verification observation {"c": case, "accept": b, "stdAccept": "yes"|"no"|"n/a", ...} judged
    by IdealBad, or (Kind = "self") {"obj","kt","alg","outcome","sigOK"} judged by SelfBad. *)
 EXTENDS Ideal, Json, SequencesExt
-CONSTANT Kind      \* "verify" | "self"
+CONSTANT Kind      \* "verify" | "self" | "mixed" (a record with a field "obj" is a self-signed-object observation)
 Log == ndJsonDeserialize("ideal_obs.ndjson")
-BadOf(r) == IF Kind = "self" THEN SelfBad(r) ELSE IdealBad(r)
+IsSelf(r) == Kind = "self" \/ (Kind = "mixed" /\ "obj" \in DOMAIN r)
+BadOf(r) == IF IsSelf(r) THEN SelfBad(r) ELSE IdealBad(r)
 ASSUME \A i \in DOMAIN Log : BadOf(Log[i]) = {} \/ PrintT(ToJson([reject |-> i, bad |-> SetToSeq(BadOf(Log[i])), std |-> <<>>]))
 ASSUME PrintT(<<"JUDGED", Len(Log)>>)
 =============================================================================
